@@ -234,6 +234,11 @@ def reindex_database(
             _check_for_modified_notes(cmd.zettel_dir, zorg_page, old_zorg_page)
             _LOGGER.debug("Adding zorg file", file=zorg_page_name)
             session.repo.add_file(zorg_page)
+            if zorg_page.events:
+                # This file is about to be rewritten (ZIDs / modify dates). Its
+                # hash is recorded by the last of those rewrites, so that a run
+                # that gets interrupted before then is repaired by the next.
+                del file_to_hash[zorg_page_name]
             session.commit()
 
     if num_of_updates == 0:
@@ -282,6 +287,7 @@ def update_note_modify_dates(
         add_thing_to_first_line=_add_or_update_modify_date,
         get_thing=lambda _: today_short_date,
         log_message="Updating modify dates",
+        is_last_rewrite=event.is_last_rewrite,
     )
 
 
@@ -381,10 +387,10 @@ def _check_for_modified_notes(
         if note.modify_date != today and note_has_changed:
             note.modify_date = today
             modify_short_date = zdt.to_short_date_spec(dt.date.today())
-            # If the modify date is the same as the create date, then no modify
-            # date spec should exist yet...
+            # If the note's first word is its ZID, then no modify date spec
+            # exists yet...
             assert old_note is not None
-            if old_note.modify_date == note.create_date:
+            if not zdt.is_short_date_spec(note.body.lstrip().split(" ")[0]):
                 old_body = f"{note.body.lstrip()}"
             # Otherwise, we need to remove the old modify date spec before
             # adding the new one.
@@ -393,8 +399,16 @@ def _check_for_modified_notes(
             note.body = f"{modify_short_date} {old_body}"
             modified_notes.append(note)
     if modified_notes:
+        # Notes without a ZID get one (and this file gets rewritten once more)
+        # when the page is added to the repo.
+        has_new_notes = any(note.zid is None for note in zorg_page.notes)
         zorg_page.events.append(
-            events.ModifiedZorgNotesEvent(zdir, zorg_page.path, modified_notes)
+            events.ModifiedZorgNotesEvent(
+                zdir,
+                zorg_page.path,
+                modified_notes,
+                is_last_rewrite=not has_new_notes,
+            )
         )
 
 
@@ -441,6 +455,7 @@ def _update_zo_file(
     add_thing_to_first_line: _AddThingToFirstLine,
     get_thing: _GetThing,
     log_message: str,
+    is_last_rewrite: bool = True,
 ) -> None:
     zlines = zo_path.read_text().split("\n")
     for note in notes_to_update:
@@ -462,6 +477,8 @@ def _update_zo_file(
         notes_to_update=len(notes_to_update),
     )
     zo_path.write_text("\n".join(zlines))
+    if not is_last_rewrite:
+        return
 
     # Only refresh the hash of the file we just rewrote: other files may have
     # been edited since they were last indexed.
